@@ -1,11 +1,62 @@
-/- Driver ops for C03. -/
+/- Driver ops for C03 (masked PSF convolution). -/
 import Driver.Loop
+import Model.Convolution
 
 open Lean Model
 
 namespace Driver.C03
 
-def ops : List (String × Op) := []
+def getKernel (j : Json) : Except String (Kernel Rat) := do
+  let h ← getNat (← field j "h")
+  let w ← getNat (← field j "w")
+  let vals ← getRats (← field j "vals")
+  if vals.length ≠ h * w then throw "kernel length mismatch"
+  pure { h := h, w := w, vals := vals }
+
+def mkConvolver (m : Mask) (K : Kernel Rat) : Except String (Impl.Convolver Rat) :=
+  match Impl.convolver m K with
+  | .error .evenKernel => throw "even_kernel"
+  | .error .footprintOutside => throw "footprint_outside"
+  | .ok cv => pure cv
+
+/-- {"op":"c03.convolve","mask":…,"kernel":{h,w,vals},"image":[native…],"blur":[native…]}
+    → convolve_image(Array2D(image, mask), Array2D(blur, blurring_mask)) and the no-blurring twin -/
+def convolve : Op := fun j => do
+  let m ← getMask (← field j "mask")
+  let K ← getKernel (← field j "kernel")
+  let a ← getRats (← field j "image")
+  let b ← getRats (← field j "blur")
+  if a.length ≠ m.h * m.w ∨ b.length ≠ m.h * m.w then throw "shape_mismatch"
+  let cv ← mkConvolver m K
+  let img := Impl.slimFrom m a (0 : Rat)
+  let blur := Impl.slimFrom cv.blurringMask b (0 : Rat)
+  pure (obj [("blurred", ratsToJson (Impl.convolve cv img blur)),
+             ("no_blurring", ratsToJson (Impl.convolveNoBlurring cv img)),
+             ("blurring_mask", bitsToJson cv.blurringMask.bits)])
+
+/-- {"op":"c03.convolve_matrix","mask":…,"kernel":…,"matrix":[[row]…],"ncols":n} -/
+def convolveMatrix : Op := fun j => do
+  let m ← getMask (← field j "mask")
+  let K ← getKernel (← field j "kernel")
+  let M ← getRatMat (← field j "matrix")
+  let ncols ← getNat (← field j "ncols")
+  let cv ← mkConvolver m K
+  if M.length ≠ cv.pixelsInMask then throw "shape_mismatch"
+  pure (ratMatToJson (Impl.convolveMatrix cv M.length ncols M))
+
+/-- {"op":"c03.conv_same","h":…,"w":…,"kernel":…,"image":[native…]} — contract of scipy convolve2d -/
+def convSame : Op := fun j => do
+  let h ← getNat (← field j "h")
+  let w ← getNat (← field j "w")
+  let K ← getKernel (← field j "kernel")
+  let a ← getRats (← field j "image")
+  if a.length ≠ h * w then throw "shape_mismatch"
+  match Spec.convSame h w K a with
+  | none => throw "even_kernel"
+  | some r => pure (ratsToJson r)
+
+def ops : List (String × Op) :=
+  [("c03.convolve", convolve), ("c03.convolve_matrix", convolveMatrix), ("c03.conv_same", convSame)]
 
 end Driver.C03
 
